@@ -16,9 +16,9 @@ LEVEL = "exploration"
 RULE = (
     "base files: generated family (declared d vs columns c incl. d != c, rows incl. 19..22 around the sniffing window, "
     "WRAP NO/YES, DLM absent/SPACE/TAB/COMMA, full header) and every example file of the repository that reads; "
-    "transformations enumerated at every applicable site: T1 blank line / T2 '#' comment line inserted at each line "
+    "transformations enumerated at every applicable site: T1 blank line / T2 '#' comment line (plain, indented, carrying hyphens and dates) inserted at each line "
     "boundary of a header-items or data section, T3 each inter-field whitespace run of data rows and each of the six "
-    "pad positions of header lines replaced by {1 blank, 3 blanks, tab}, T4 trailing blanks on each line / leading "
+    "pad positions of header lines replaced by {1 blank, 3 blanks, tab}, and every data row of every whitespace-delimited file (corpus included) re-spaced with tab / 1 blank / 3 blanks / mixed, T4 trailing blanks on each line / leading "
     "blanks on each non-title line, T5 CRLF, T6 no final newline, T7 every re-cut of wrapped depth steps and every uniform re-flow of the whole token stream (1 value per line .. all values on one line), T8 "
     "re-delimiting with SPACE/TAB/COMMA x padding, plus each kind at all sites at once; thorough adds pairs of "
     "single-site text transformations and per-site transformations of the corpus; both engines; a case is "
@@ -262,6 +262,9 @@ def text_variants_single(lines, kinds, max_sites=None):
     for k in sites:
         out.append(("T1-blank", ("ins", k, "")))
         out.append(("T2-comment", ("ins", k, "# inserted comment")))
+        out.append(("T2-comment-indented", ("ins", k, "   # indented comment")))
+        if kinds[k - 1][0] == "data" or (k < len(lines) and kinds[k][0] == "data"):
+            out.append(("T2-comment-hyphen", ("ins", k, "# re-logged 2020-01-02 - run 1-2")))
         if kinds[k - 1][0] == "data" or (k < len(lines) and kinds[k][0] == "data"):
             out.append(("T1-blank-ws", ("ins", k, "   ")))
     idxs = [i for i in range(len(lines)) if kinds[i][0] in ("items", "data") and lines[i].strip()]
@@ -296,6 +299,34 @@ def apply_text_ops(lines, ops, eol="\n", final_nl=True):
     return text
 
 
+def whitespace_delimited(lines):
+    """True unless the file declares DLM COMMA/TAB or its data lines carry quotes (quoted text may hold blanks)."""
+    import re
+    for ln, (kind, is_title) in zip(lines, classify_lines(lines)):
+        if kind == "items" and re.match(r"^\s*DLM\s*\.\s*(COMMA|TAB)", ln, re.I):
+            return False
+        if kind == "data" and not is_title and ('"' in ln or "'" in ln):
+            return False
+    return True
+
+
+def respace_data(lines, kinds, sep):
+    """T3 on any whitespace-delimited file: every inner whitespace run of every data row becomes `sep`."""
+    import re
+    out = []
+    in_a = False
+    for ln, (kind, is_title) in zip(lines, kinds):
+        if is_title:
+            # only genuine ~A sections: LAS 3.0 '~..._Data' sections are parsed as header items when an ~A exists
+            in_a = ln.strip().upper().startswith("~A")
+        if kind == "data" and in_a and not is_title and ln.strip() and not ln.strip().startswith("#"):
+            lead = ln[:len(ln) - len(ln.lstrip())]
+            out.append(lead + re.sub(r"[ \t]+", sep, ln.strip()))
+        else:
+            out.append(ln)
+    return out
+
+
 def whole_file_variants(lines, kinds):
     sites = insertion_sites(lines, kinds)
     idxs = [i for i in range(len(lines)) if kinds[i][0] in ("items", "data") and lines[i].strip()]
@@ -305,6 +336,8 @@ def whole_file_variants(lines, kinds):
         ("T5+T6", {"eol": "\r\n", "final_nl": False}),
         ("T1-blank-all", {"ops": [("ins", k, "") for k in sites]}),
         ("T2-comment-all", {"ops": [("ins", k, "#c") for k in sites]}),
+        ("T2-comment-indented-all", {"ops": [("ins", k, "  \t# c") for k in sites]}),
+        ("T2-comment-hyphen-all", {"ops": [("ins", k, "# 2020-01-02 - run 1-2") for k in sites]}),
         ("T4-trailing-all", {"ops": [("trail", i, " \t") for i in idxs]}),
         ("T4-leading-all", {"ops": [("lead", i, "   ") for i in idxs if not kinds[i][1]]}),
         ("T1-blank-at-end", {"ops": [("ins", len(lines), ""), ("ins", len(lines), "")]} if kinds[-1][0] in ("items", "data") else {"eol": "\n"}),
@@ -387,6 +420,9 @@ def variants_for(pt):
         lines = lines[:-1]
     kinds = classify_lines(lines)
     part = pt["part"]
+    if part in ("all", "whole") and whitespace_delimited(lines):
+        for sep, nm in (("\t", "tab"), ("   ", "3blanks"), (" ", "1blank"), (" \t ", "mixed")):
+            yield "T3-data-respace-" + nm, "\n".join(respace_data(lines, kinds, sep)) + "\n", False, {"sep": sep}
     if part in ("all", "whole"):
         for kind, spec in whole_file_variants(lines, kinds):
             t = apply_text_ops(lines, spec.get("ops", []), spec.get("eol", "\n"), spec.get("final_nl", True))
